@@ -46,10 +46,14 @@ func stateHash(st *types.State) []byte {
 	return common.Hasher(buf)
 }
 
-func newSdbSess(run *vh.Run, univ [][]byte) *sdbSess {
-	s := &sess{run: run, store: newStore(), ref: map[string][]byte{}, univ: univ}
+func newSdbSess(run *vh.Run, univ [][]byte, track bool) *sdbSess {
+	s := &sess{run: run, store: newStore(), ref: map[string][]byte{}, univ: univ, track: track}
 	s.tr = trie.NewTrie(nil, common.Hasher, s.store)
-	s.op("new 0", "ok", false)
+	if track {
+		s.op("new 0 w", "ok", false)
+	} else {
+		s.op("new 0", "ok", false)
+	}
 	return &sdbSess{sess: s, long: statedb.NewStateDB(s.store, nil, false), states: map[string]*types.State{}, data: map[string][]byte{}}
 }
 
@@ -62,6 +66,7 @@ func (s *sdbSess) afterCommit(root []byte) {
 	}
 	s.commits = append(s.commits, commitRec{append([]byte{}, root...), m})
 	s.head = len(s.commits) - 1
+	s.wset(root)
 	s.op("commit", fmt.Sprintf("ok %d", len(s.commits)-1), false)
 	s.batchCodec()
 	s.storeLayer()
@@ -206,7 +211,7 @@ func accountSession(run *vh.Run) {
 			univ = append(univ, k)
 		}
 	}
-	s := newSdbSess(run, univ)
+	s := newSdbSess(run, univ, true)
 	s.log = append(s.log, "#sdb account")
 	nb := 2 + rng.Intn(16)
 	for b := 0; b < nb; b++ {
@@ -398,7 +403,7 @@ func storageSession(run *vh.Run) {
 	for _, k := range keys {
 		hu = append(hu, common.Hasher(k))
 	}
-	s := newSdbSess(run, hu)
+	s := newSdbSess(run, hu, false) // two tries share the commit: the written set is not the storage trie's alone
 	s.userKeys = keys
 	s.cid = rng.Bytes(33)
 	s.log = append(s.log, fmt.Sprintf("#sdb storage %x", s.cid))
@@ -441,8 +446,8 @@ func replaySdb(run *vh.Run, lines []string) {
 		}
 		switch f[0] {
 		case "#sdb":
-			s = newSdbSess(run, nil)
 			storage = f[1] == "storage"
+			s = newSdbSess(run, nil, !storage)
 			if storage {
 				s.cid, _ = hex.DecodeString(f[2])
 			}
